@@ -369,6 +369,13 @@ def check_library(ctx, lib):
                 r = r[1]
             ctx.expect(unify(pat(want), r) is not None and not tables.semis(t), R, fn["npath"] + "|delegates", site_of(fn), "must be %s on the unchanged arms; found %s" % (want, show(t, maxdepth=4)[:200]))
     check_conde_builder(ctx, lib, "C13.K6.conde-builder")
+    # matcha / matchu "apply the committed-choice rules of C08 to the same arms" (rules shared with C08)
+    import C08
+
+    C08.check_solve(ctx, lib, "C13.K3.matcha-commits", "Conda", "peek")
+    C08.check_solve(ctx, lib, "C13.K3.matchu-commits", "Condu", "trunc")
+    C08.check_builder(ctx, lib, "C13.K6.commit-builder", "Conda")
+    C08.check_builder(ctx, lib, "C13.K6.commit-builder", "Condu")
 
 
 def check_conde_builder(ctx, lib, RB):
